@@ -4,22 +4,35 @@
 From PV Require Export Base.Prelude.
 Open Scope N_scope.
 
-(* for i := 0; i < len(b)-1; i += 2 { s += uint32(b[i+1])<<8 | uint32(b[i]) }
-   if (len(b)-1)&1 == 0 { s += uint32(b[len(b)-1]) }     -- uint32 accumulator *)
+(* for i := 0; i < len(b)-1; i += 2 { s += uint64(b[i+1])<<8 | uint64(b[i]) }
+   if (len(b)-1)&1 == 0 { s += uint64(b[len(b)-1]) }     -- uint64 accumulator, wrap explicit *)
+Definition u64 (x : N) : N := x mod 18446744073709551616.
+
 Fixpoint cs_loop (b : bytes) (s : N) : N :=
   match b with
-  | lo :: hi :: r => cs_loop r (u32 (s + (N.lor (N.shiftl hi 8) lo)))
-  | [x] => u32 (s + x)
+  | lo :: hi :: r => cs_loop r (u64 (s + (N.lor (N.shiftl hi 8) lo)))
+  | [x] => u64 (s + x)
   | [] => s
   end.
 
-(* s = s>>16 + s&0xffff ; s = s + s>>16 ; return ^uint16(s) *)
-Definition cs_fold (s : N) : N :=
-  let s1 := u32 (N.shiftr s 16 + N.land s 65535) in
-  let s2 := u32 (s1 + N.shiftr s1 16) in
-  65535 - u16 s2.
+(* for s>>16 != 0 { s = s>>16 + s&0xffff }: the loop, on fuel; five rounds bring any 64-bit
+   value below 65536 (Proofs.Checksum.cs_fold_loop_done), the model gives it eight *)
+Fixpoint cs_fold_loop (fuel : nat) (s : N) : N :=
+  match fuel with
+  | O => s
+  | S f => if N.shiftr s 16 =? 0 then s
+           else cs_fold_loop f (u64 (N.shiftr s 16 + N.land s 65535))
+  end.
+
+(* return ^uint16(s) *)
+Definition cs_fold (s : N) : N := 65535 - u16 (cs_fold_loop 8 s).
 
 Definition checksum (b : bytes) : N := cs_fold (cs_loop b 0).
+
+(* proofs about callers treat the checksum as a value: simpl / cbn do not run the loops *)
+Global Arguments cs_fold_loop : simpl never.
+Global Arguments cs_fold : simpl never.
+Global Arguments checksum : simpl never.
 
 (* IP4.CalculateChecksum: psh := make([]byte,20); copy(psh[0:10], p[0:10]);
    copy(psh[10:18], p[12:20]); Checksum(psh).  Panics when cap(p) < 20
